@@ -69,6 +69,58 @@ need(re.search(r'const MaxPolicyGroupUIDLength\s*=\s*iptables\.MaxChainNameLengt
                read("felix/rules/endpoints.go")), "MaxPolicyGroupUIDLength expression")
 grp_uid = ipt - len(dict(dyn)["PolicyGroupInboundPrefix"])
 
+# ---- identity strings (what is hashed / used as the identity) --------------------------------
+pid_src = read("felix/types/policy_id.go")
+m_str = need(re.search(r'func \(p PolicyID\) String\(\) string \{\s*return fmt\.Sprintf\("([^"]*)",\s*([^)]*)\)', pid_src), "PolicyID.String format")
+str_fmt, str_args = m_str.group(1), [a.strip() for a in m_str.group(2).split(",")]
+m_id = need(re.search(r'func \(p PolicyID\) ID\(\) string \{(.*?)\n\}', pid_src, re.S), "PolicyID.ID body").group(1)
+id_parts = re.findall(r'(if p\.Namespace != "" \{)|return fmt\.Sprintf\("([^"]*)",\s*(.*)\)\s*$', m_id, re.M)
+id_shape = []
+for cond, f, a in id_parts:
+    id_shape.append("if-namespace-set" if cond else "%s <- %s" % (f, ",".join(x.strip() for x in a.split(","))))
+short_kinds = dict(re.findall(r'^\s*(ShortKind\w+)\s+string\s*=\s*"([^"]*)"', pid_src, re.M))
+sw = need(re.search(r'func \(p PolicyID\) KindShortName\(\) string \{\s*switch p\.Kind \{(.*?)default:', pid_src, re.S), "KindShortName switch").group(1)
+cases = re.findall(r'case\s+(\w+)\.(\w+):\s*return\s+(\w+)', sw)
+if not cases:
+    sys.exit("C37 translator: no KindShortName cases")
+kind_src = ""
+for d in ["api/pkg/apis/projectcalico/v3", "libcalico-go/lib/backend/model"]:
+    dd = os.path.join(repo, d)
+    for f in sorted(os.listdir(dd)):
+        if f.endswith(".go") and not f.endswith("_test.go"):
+            kind_src += open(os.path.join(dd, f)).read()
+kind_table = []
+for pkg, const, sk in cases:
+    mv = need(re.search(r'^\s*%s\s*=\s*"([^"]*)"' % re.escape(const), kind_src, re.M), "kind constant " + const)
+    if sk not in short_kinds:
+        sys.exit("C37 translator: short kind constant missing: " + sk)
+    kind_table.append((const, mv.group(1), short_kinds[sk]))
+ep = read("felix/rules/endpoints.go")
+uid = need(re.search(r'func \(g \*PolicyGroup\) UniqueID\(\) string \{(.*?)\n\}', ep, re.S), "PolicyGroup.UniqueID").group(1)
+# the write closure: hashes s then a separator literal
+sep = need(re.search(r'write := func\(s string\) \{\s*_, err := hash\.Write\(\[\]byte\(s\)\).*?hash\.Write\(\[\]byte\("((?:\\.|[^"\\])*)"\)\)', uid, re.S), "UniqueID write closure").group(1)
+sep = bytes(sep, "utf-8").decode("unicode_escape")
+after = uid[uid.index("write := func"):]
+after = after[after.index("\n\t}\n") + 4:]
+writes = []
+for line in after.split("\n"):
+    t = line.strip()
+    mm = re.match(r'write\((.*)\)$', t)
+    if mm:
+        writes.append(mm.group(1))
+    elif t.startswith("for ") and "range g.Policies" in t:
+        writes.append("<for policy in g.Policies>")
+hasher = need(re.search(r'hash := hash\.Hash\((\w+\.\w+)\(\)\)', uid), "UniqueID hasher").group(1)
+dirs = dict(re.findall(r'^\s*(PolicyDirection(?:Inbound|Outbound))\s+PolicyDirection\s*=\s*"([^"]*)"', rd, re.M))
+if set(dirs) != {"PolicyDirectionInbound", "PolicyDirectionOutbound"}:
+    sys.exit("C37 translator: PolicyDirection constants missing")
+prof = need(re.search(r'func \(p ProfileID\) ID\(\) string \{\s*return ([^\n]*)\n', read("felix/types/profile_id.go")), "ProfileID.ID").group(1).strip()
+
+
+def lean_strs(xs):
+    return "[" + ", ".join(lean_str(x) for x in xs) + "]"
+
+
 L = ["/- GENERATED by translate/c37/gen.py from %s — do not edit. -/" % repo,
      "namespace CalicoVerif.C37.Gen", "",
      "def maxChainNameLengthIptables : Int := %d" % ipt,
@@ -86,5 +138,21 @@ L.append("def dynamicPrefixes : List (List Nat) := [" + ", ".join("pfx_" + n for
 L.append("")
 L.append("/-- Every fixed chain name built from ChainNamePrefix in rule_defs.go. -/")
 L.append("def staticNames : List (List Nat) := [\n  " + ",\n  ".join("%s  /- %s -/" % (lean_str(v), n) for n, v in static) + "]")
+L += ["",
+      "/-- Literal segments of PolicyID.String()'s format %r (split at %%s); arguments: %s. -/" % (str_fmt, ", ".join(str_args)),
+      "def policyStringSegments : List (List Nat) := " + lean_strs(str_fmt.split("%s")),
+      "def policyStringArgs : List String := [" + ", ".join('"%s"' % a for a in str_args) + "]",
+      "/-- Shape of PolicyID.ID(): condition and Sprintf calls in source order. -/",
+      "def policyIDShape : List String := [" + ", ".join('"%s"' % x for x in id_shape) + "]",
+      "/-- KindShortName switch: (kind value, short name) in source order. -/",
+      "def kindShortTable : List (List Nat × List Nat) := [" + ", ".join("(%s, %s)" % (lean_str(k), lean_str(sv)) for _, k, sv in kind_table) + "]  -- " + ", ".join("%s->%s" % (k, sv) for _, k, sv in kind_table),
+      "/-- PolicyGroup.UniqueID(): hasher, the separator written after every item, and the items written, in source order. -/",
+      "def groupHasher : String := \"%s\"" % hasher,
+      "def groupWriteSeparator : List Nat := " + lean_str(sep),
+      "def groupWrites : List String := [" + ", ".join('"%s"' % w.replace('"', "'") for w in writes) + "]",
+      "def directionInbound : List Nat := %s  -- %r" % (lean_str(dirs["PolicyDirectionInbound"]), dirs["PolicyDirectionInbound"]),
+      "def directionOutbound : List Nat := %s  -- %r" % (lean_str(dirs["PolicyDirectionOutbound"]), dirs["PolicyDirectionOutbound"]),
+      "/-- ProfileID.ID() body. -/",
+      "def profileIDExpr : String := \"%s\"" % prof]
 L += ["", "end CalicoVerif.C37.Gen", ""]
 open(out, "w").write("\n".join(L))
